@@ -138,6 +138,13 @@ func (c *Compressor) encode(ctx *EncodeContext, dst []byte, data []float64) []by
 
 	for i, v := range data {
 		if v == 0 {
+			if math.Signbit(v) {
+				// -0.0 is not the zero of the bitmap: keep it bit for bit, as an incompressible element
+				uncompressedCount++
+				ctx.bm.SetSkip(i)
+				dst = binary.BigEndian.AppendUint64(dst, math.Float64bits(v))
+				continue
+			}
 			ctx.bm.SetZero(i)
 			continue
 		}
@@ -235,12 +242,15 @@ func prepare(data []float64, ctx *EncodeContext) {
 
 	for i := range data {
 		v := data[i]
-		if i > 0 && v != data[i-1] {
+		if i > 0 && math.Float64bits(v) != math.Float64bits(data[i-1]) {
 			ctx.repeatedBlockCount++
 		}
 
 		if v == 0 {
 			allSkip = false
+			if math.Signbit(v) {
+				allZero = false // -0.0 must keep its sign
+			}
 			continue
 		}
 		allZero = false
